@@ -76,6 +76,29 @@ def mc_generate(wdir, timeout=900, **kw):
     return hists, r
 
 
+def mc_simulate(wdir, num=1000, depth=60, seed=1, timeout=900, **kw):
+    """Random walks of the design model (tlc -simulate) with larger constants: long histories whose every
+    state still satisfies the design invariants; each completed walk is written out as one history."""
+    out = os.path.join(wdir, "sim.ndjson")
+    os.makedirs(wdir, exist_ok=True)
+    if os.path.exists(out):
+        os.remove(out)
+    cfg = impl_cfg(out=out, **kw).replace("ACTION_CONSTRAINT Emit", "").replace("INVARIANTS TypeOK", "INVARIANTS EmitDeep TypeOK")
+    r = vlib.tlc("MCImpl", cfg, wdir, workers=1, timeout=timeout, heap="6g", name="MCImpl_sim",
+                 extra=("-simulate", "num=%d" % num, "-depth", str(depth), "-seed", str(seed)))
+    if r.violated or r.prop_violated or r.exception:
+        raise vlib.Inconclusive("design model simulation failed:\n" + r.out[-3000:])
+    hists, seen = [], set()
+    if os.path.exists(out):
+        with open(out) as f:
+            for line in f:
+                line = line.strip()
+                if line and line not in seen:
+                    seen.add(line)
+                    hists.append(json.loads(json.loads(line)))
+    return hists, r
+
+
 def mc_check(wdir, workers=vlib.NCPU, timeout=1800, **kw):
     """Exhaustive check of the design invariants (no emission)."""
     cfg = impl_cfg(out="", **kw)
